@@ -754,6 +754,11 @@ class H2Connection:
             "Send headers on stream ID %d", stream_id
         )
 
+        # Only clients open streams by sending headers: a server sends them
+        # on streams the client opened or that it has promised itself.
+        if not self.config.client_side:
+            self._get_stream_by_id(stream_id)
+
         # Check we can open the stream.
         if stream_id not in self.streams:
             max_open_streams = self.remote_settings.max_concurrent_streams
